@@ -262,6 +262,63 @@ def snapshot_catchup(**kw):
     return sc.rec
 
 
+def snapshot_sent_long_after_it_was_taken(**kw):
+    """an in-memory snapshot is taken, then more commands are appended and applied, and only then a lagging follower
+    is brought up to date with that snapshot and the entries behind it: what is shipped is the state of the snapshot's
+    position, not the state of the moment it is first sent (seeds C09-r5 / C15-r5: the image is built lazily)"""
+    sc = Script(base_cfg([1, 2, 3], chunk=64), **kw)
+    s = sc.s
+    s.boot()
+    sc.elect(1)
+    sc.settle([1, 2, 3], 2)
+    sc.isolate(3)
+    for _ in range(4):
+        s.submit(1, size=10)
+    sc.settle([1, 2], 4)
+    sc.rec.do(('compact', 1))
+    sc.rec.do(('compact', 2))
+    sc.settle([1, 2], 3)
+    for _ in range(4):
+        s.submit(1, size=10)
+    sc.settle([1, 2], 4)              # applied on 1 and 2 behind the snapshot's position
+    sc.join(3)
+    sc.settle([1, 2, 3], 10)
+    s.submit(3, size=10)              # and the restored follower goes on like the others
+    sc.settle([1, 2, 3], 5)
+    return sc.rec
+
+
+def snapshot_installed_follower_leads(**kw):
+    """a follower that was brought up to date by the leader's snapshot later becomes leader itself, with the former
+    leader (the author of the snapshot) still a member: it replicates to every other member, the former leader
+    included, and the cluster converges (seed C05-r5: a per-node attribute that travels inside the snapshot - the
+    author's list of replication targets - makes the new leader skip the former one for ever)"""
+    sc = Script(base_cfg([1, 2, 3], chunk=64, fallback=300), **kw)
+    s = sc.s
+    s.boot()
+    sc.elect(1)
+    sc.settle([1, 2, 3], 2)
+    sc.isolate(3)
+    for _ in range(4):
+        s.submit(1, size=10)
+    sc.settle([1, 2], 4)
+    sc.rec.do(('compact', 1))
+    sc.settle([1, 2], 3)
+    sc.join(3)
+    sc.settle([1, 2, 3], 8)           # 3 installs the snapshot of 1
+    sc.isolate(1)
+    sc.elect_until(3, [2])
+    sc.settle([2, 3], 3)
+    sc.join(1)
+    s.kill(2)                         # the new leader needs the former one for a majority
+    s.submit(3, size=10)
+    sc.settle([1, 3], 6)
+    RC.quiet_period(s, timeouts=6, submit_on=3)
+    sc.rec.convergence = RC.convergence_problems(sc.rec, s, None, {})
+    sc.rec.convergence_props = ('C05', 'C09')
+    return sc.rec
+
+
 def forwarded(**kw):
     """commands submitted on a follower while the leader changes"""
     sc = Script(base_cfg([1, 2, 3]), **kw)
@@ -754,6 +811,80 @@ def old_snapshot_again(**kw):
     s.tick(2, 11)                     # the same snapshot goes out again
     sc.flush(2, 3)
     s.tick(3, 11)
+    sc.settle([1, 2, 3], 4)
+    return sc.rec
+
+
+def refused_snapshot_then_kill(**kw):
+    """FX-C06-2.  A journaled follower with a dump file has compacted at its own position P when the leader, after an
+    outdated rejection, ships its snapshot of an older position S < P once more.  The follower refuses it - and is killed
+    right after the last piece, before any further tick of its own.  What it restarts from must still be its own dump
+    of P (with the journal trimmed to P): before the repair the refused file had already replaced it, the journal did
+    not hold that dump's entries, and the node came back at S without the entries it had acknowledged."""
+    sc = Script(base_cfg([1, 2, 3], chunk=65536, fallback=100000, journal='file', dump='file'), **kw)
+    s = sc.s
+    s.boot()
+    sc.elect(1)
+    sc.settle([1, 2, 3], 2)
+    sc.isolate(3)
+    for _ in range(3):
+        s.submit(1, size=5)
+    sc.settle([1, 2], 3)
+    sc.rec.do(('compact', 1))
+    sc.rec.do(('compact', 2))
+    sc.settle([1, 2], 3)
+    for _ in range(3):
+        s.submit(1, size=5)
+    sc.settle([1, 2], 3)              # entries behind the snapshot, committed by 1 and 2
+    sc.elect_until(2, [1])            # a new leader: its next index for 3 is its log end + 1
+    sc.settle([1, 2], 2)
+    sc.join(3)
+    s.tick(2, 11)
+    s.tick(2, 11)                     # two append_entries queue up for 3 ...
+    sc.flush(2, 3)                    # ... and draw two rejections
+    s.deliver(3, 2)                   # the first one: 2 will ship its snapshot (position S)
+    s.tick(2, 11)
+    sc.flush(2, 3)                    # 3 installs it and stores the entries behind it
+    s.tick(3, 11)                     # ... applies them (position P > S)
+    sc.rec.do(('compact', 3))
+    s.tick(3, 11)
+    s.tick(3, 11)                     # own dump of P written, journal trimmed to P
+    s.deliver(3, 2)                   # the second rejection, as old as the first
+    s.tick(2, 11)                     # the snapshot of S goes out again
+    sc.flush(2, 3)                    # refused by 3
+    s.kill(3)
+    s.restart(3)
+    sc.settle([1, 2, 3], 5)
+    return sc.rec
+
+
+def duplicate_add_then_truncation(**kw):
+    """a leader that is cut off is asked to add a node that already is a member (and, after a second round, to remove a
+    node that is not one): the request is refused and nothing is logged.  Were it logged as an entry without effect, the
+    rollback of the truncation that follows (and the member set of a snapshot taken before it is applied) would undo a
+    change that never happened (seed C10-r5).  After every step each member set is the fold of the node's log."""
+    sc = Script(base_cfg([1, 2, 3], dyn=True, fallback=100000), **kw)
+    s = sc.s
+    s.boot()
+    sc.elect_until(1, [2, 3])
+    sc.settle([1, 2, 3], 3)
+    s.submit(1, size=5)
+    sc.settle([1, 2, 3], 3)
+    for rnd, (leader, other, dup) in enumerate([(1, 2, 3), (2, 1, 3)]):
+        sc.isolate(leader)
+        sc.rec.do(('admin', leader, True, dup, 700 + rnd))     # already a member
+        s.tick(leader, 11)
+        sc.rec.do(('admin', leader, False, 6, 710 + rnd))      # not a member
+        s.tick(leader, 11)
+        sc.rec.do(('compact', leader))
+        s.tick(leader, 11)
+        s.tick(leader, 11)
+        sc.elect_until(other, [dup])
+        s.submit(other, size=5)
+        sc.settle([other, dup], 3)
+        sc.join(leader)
+        sc.settle([1, 2, 3], 5)                                # the cut-off leader cuts whatever it appended
+    s.submit(sc.rec.sim.leader() if hasattr(sc.rec.sim, 'leader') else 1, size=5)
     sc.settle([1, 2, 3], 4)
     return sc.rec
 
@@ -1599,11 +1730,11 @@ def big_entry_index_reused(**kw):
 
 
 SCENARIOS = {'d7': d7, 'd8': d8, 'd17': d17, 'd16': d16, 'd1': d1, 'd20': d20,
-             'snapshot_catchup': snapshot_catchup, 'forwarded': forwarded,
+             'snapshot_catchup': snapshot_catchup, 'snapshot_installed_follower_leads': snapshot_installed_follower_leads, 'snapshot_sent_long_after_it_was_taken': snapshot_sent_long_after_it_was_taken, 'forwarded': forwarded,
              'restart_double_vote': restart_double_vote, 'd18': d18, 'd10': d10, 'd19': d19, 'd6': d6,
              'ser_fork': ser_fork, 'ser_custom': ser_custom, 'fig8': fig8, 'stale_match_reelected': stale_match_reelected,
              'stale_cursor': stale_cursor, 'compact_during_install': compact_during_install,
-             'member_rollback': member_rollback, 'backoff_burst': backoff_burst, 'snapshot_members': snapshot_members, 'old_snapshot_again': old_snapshot_again, 'dump_kill_points': dump_kill_points, 'install_drops_acked': install_drops_acked,
+             'member_rollback': member_rollback, 'backoff_burst': backoff_burst, 'snapshot_members': snapshot_members, 'old_snapshot_again': old_snapshot_again, 'duplicate_add_then_truncation': duplicate_add_then_truncation, 'dump_kill_points': dump_kill_points, 'install_drops_acked': install_drops_acked,
              'snapshot_at_membership_entry': snapshot_at_membership_entry,
              'restart_empty_follower': restart_empty_follower,
              'stale_tail_behind_snapshot': stale_tail_behind_snapshot,
@@ -1623,6 +1754,7 @@ SCENARIOS = {'d7': d7, 'd8': d8, 'd17': d17, 'd16': d16, 'd1': d1, 'd20': d20,
              'vote_regrant_after_flap': vote_regrant_after_flap,
              'raising_then_snapshot': raising_then_snapshot,
              'big_entry_index_reused': big_entry_index_reused}
+PENDING = {'refused_snapshot_then_kill': refused_snapshot_then_kill}    # joins SCENARIOS with the repair FX-C06-2
 NAMES = sorted(SCENARIOS)
 
 
